@@ -1030,14 +1030,18 @@ func (c14) Run(input any) kit.Case {
 			facts := computeFacts(e, v.gen)
 			var rs []string
 			var runObs []string
+			// like createTrials, which builds every trial of a batch from one in-memory experiment: the three runs share a copy
+			// of e (the model was told about e before, v.implExp)
+			eRun := e.DeepCopy()
 			for k := 0; k < 3; k++ {
 				var asg []commonv1beta1.ParameterAssignment
 				for _, p := range e.Spec.Parameters {
 					asg = append(asg, commonv1beta1.ParameterAssignment{Name: p.Name, Value: feasibleValue(r, p)})
 				}
+				asgArg := append([]commonv1beta1.ParameterAssignment(nil), asg...) // asg is printed for the model below
 				var u *unstructured.Unstructured
 				var err error
-				pan := kit.Recover(func() { u, err = v.gen.GetRunSpecWithHyperParameters(e.DeepCopy(), trialName, e.Namespace, asg) })
+				pan := kit.Recover(func() { u, err = v.gen.GetRunSpecWithHyperParameters(eRun, trialName, e.Namespace, asgArg) })
 				impl, well := "(Ok tt)", false
 				switch {
 				case pan != "":
